@@ -70,7 +70,13 @@ func opAct(id, kind string, amt int64) concOp {
 		case "pay":
 			err = td.te.PlayerPay(id, amt)
 		}
-		return errStr(err)
+		// which layer refuses a game action (table status, hand wrapper, hand engine) depends on how far the
+		// engine's asynchronous processing of the previous call has got, and is not part of the property: a
+		// refusal is a refusal
+		if err != nil {
+			return "refused"
+		}
+		return "<nil>"
 	}}
 }
 
